@@ -170,6 +170,8 @@ var polCores = []func(big val.V) val.V{
 	func(b val.V) val.V { return st(val.Str("<="), val.Str(".a?"), b) },
 	func(b val.V) val.V { return st(val.Str("=="), val.Str(".a"), val.List(val.Int(1), val.Map(val.E("x", b)))) },
 	func(b val.V) val.V { return st(val.Str("!="), val.Str(".a"), val.Map(val.E("k", val.List(b)))) },
+	func(b val.V) val.V { return st(val.Str("=="), val.Str(".a"), val.Map(val.E("meta", b))) },
+	func(b val.V) val.V { return st(val.Str("=="), val.Str(".meta"), val.Map(val.E("args", val.Map(val.E("meta", val.List(b)))))) },
 }
 
 var polShapes = []func(core val.V) val.V{
@@ -195,6 +197,17 @@ var argShapes = []func(big val.V) val.V{
 	func(b val.V) val.V { return val.Map(val.E("l", val.List(val.List(val.List(val.List(b)))))) },
 	func(b val.V) val.V { return val.Map(val.E("a", val.Str("x")), val.E("b", val.Bytes([]byte{1})), val.E("zzzzzzzz", b)) },
 	func(b val.V) val.V { return val.Map(val.E("", b)) },
+	// keys that are the names of payload / envelope fields (a walker that recognises fields by NAME, not by place)
+	func(b val.V) val.V { return val.Map(val.E("meta", b)) },
+	func(b val.V) val.V { return val.Map(val.E("file", val.Map(val.E("meta", val.Map(val.E("size", b)))))) },
+	func(b val.V) val.V { return val.Map(val.E("meta", val.List(val.Int(1), b))) },
+	func(b val.V) val.V { return val.Map(val.E("args", val.Map(val.E("meta", b))), val.E("a", val.Int(1))) },
+	func(b val.V) val.V { return val.Map(val.E("exp", b)) },
+	func(b val.V) val.V { return val.Map(val.E("nbf", b), val.E("iat", b)) },
+	func(b val.V) val.V { return val.Map(val.E("nonce", val.Map(val.E("n", b)))) },
+	func(b val.V) val.V { return val.Map(val.E("pol", val.List(val.List(val.Str("=="), val.Str(".a"), b)))) },
+	func(b val.V) val.V { return val.Map(val.E("h", b), val.E("ucan/inv@1.0.0-rc.1", val.Map(val.E("x", b)))) },
+	func(b val.V) val.V { return val.Map(val.E("prf", val.List(b)), val.E("cause", b)) },
 }
 
 var okInts = []val.V{val.Int(maxSafe), val.Int(-maxSafe), val.Int(0)}
